@@ -41,6 +41,38 @@ elif name == 'M13_read_loop_never_ends':
 elif name == 'M14_read_loop_spins':
     rep('    if (errno == EAGAIN || errno == EWOULDBLOCK)\n      break;\n\n    if (errno == EINTR)', '    if (errno == EAGAIN || errno == EWOULDBLOCK)\n      continue;\n\n    if (errno == EINTR)')
     rep('    if (r != -1)\n      break;', '    if (r != -1)\n      continue;')
+elif name == 'F1_fork_keeps_eventfd':
+    rep('''  if (loop->async_io_watcher.fd == -1) /* never started */
+    return 0;
+
+  uv__queue_move(&loop->async_handles, &queue);
+  while (!uv__queue_empty(&queue)) {
+    q = uv__queue_head(&queue);
+    h = uv__queue_data(q, uv_async_t, queue);
+
+    uv__queue_remove(q);
+    uv__queue_insert_tail(&loop->async_handles, q);
+
+    /* The state of any thread''', '''  if (loop->async_io_watcher.fd == -1) /* never started */
+    return 0;
+
+#ifdef __linux__
+  /* An eventfd holds no per-process state. */
+  if (loop->async_wfd == -1)
+    return 0;
+#endif
+
+  uv__queue_move(&loop->async_handles, &queue);
+  while (!uv__queue_empty(&queue)) {
+    q = uv__queue_head(&queue);
+    h = uv__queue_data(q, uv_async_t, queue);
+
+    uv__queue_remove(q);
+    uv__queue_insert_tail(&loop->async_handles, q);
+
+    /* The state of any thread''')
+elif name == 'F2_fork_keeps_pending':
+    rep('    h->pending = 0;\n', '    (void) 0;\n')
 elif name == 'R1_refactor':
     rep('  atomic_fetch_add(busy, -1);\n', '  atomic_fetch_sub(busy, 1);\n')
     rep('  uv__queue_remove(&handle->queue);\n  uv__handle_stop(handle);', '  uv__handle_stop(handle);\n  uv__queue_remove(&handle->queue);')
